@@ -699,7 +699,7 @@ func togoGen(g *Gen) {
 		g.Emit("%s", togoLine("conv", vn, &tnode{tok: "H", tn: "vnode", id: 1, keys: ks, kids: []*tnode{leaf(), atom("R2")}}, "-"))
 		g.Count("fixed shared-record pointer+interface")
 	}
-	// 3b. a struct type with an embedded POINTER: keyed known finding (no record of it can be made)
+	// 3b. a struct type with an embedded POINTER (could not be made into a record before fix C10-06)
 	vpe := togoByName["vpe"]
 	g.Emit("%s", togoLine("conv", vpe, &tnode{tok: "H", tn: "vpe", id: 1, keys: []string{"k122"}, kids: []*tnode{atom("i4")}}, "-"))
 	g.Count("fixed embedded-pointer type")
